@@ -952,6 +952,14 @@ fn cmd_repeat() {
 }
 
 /// C20: threads sharing one document observe what a single thread observes.
+#[cfg(not(feature = "c20"))]
+fn cmd_threads(_seed: u64) {
+    eprintln!("threads: this harness was built without the c20 feature");
+    std::process::exit(3);
+}
+
+/// C20: threads sharing one document observe what a single thread observes.
+#[cfg(feature = "c20")]
 fn cmd_threads(seed: u64) {
     fn assert_send_sync<T: Send + Sync>() {}
     assert_send_sync::<Document>();
